@@ -2,6 +2,7 @@ package main
 
 import (
 	"fmt"
+	"go/token"
 	"go/types"
 	"math/big"
 	"sort"
@@ -31,9 +32,36 @@ func (e *Encoder) call(in *ssa.Call, st *State, pc string) {
 	case cm.StaticCallee() != nil:
 		name = cm.StaticCallee().Name()
 	}
+	if _, lit := cm.Value.(*ssa.MakeClosure); lit || name == "" {
+		// a call through a local variable that holds a function literal: named after the variable (`end := func...;
+		// end()` is $end<k>)
+		switch v := cm.Value.(type) {
+		case *ssa.MakeClosure:
+			name = e.localNameOf(v)
+		case *ssa.UnOp:
+			// the variable is itself captured by another closure and lives in a cell
+			if al, ok := v.X.(*ssa.Alloc); ok && v.Op == token.MUL {
+				name = al.Comment
+			}
+		}
+	}
 	if name != "" {
 		e.nameValue("$"+name, v, pc)
 	}
+}
+
+// localNameOf: the source name of the variable an SSA value is bound to (from go/ssa's debug references).
+func (e *Encoder) localNameOf(v ssa.Value) string {
+	for _, b := range e.fn.Blocks {
+		for _, in := range b.Instrs {
+			if dr, ok := in.(*ssa.DebugRef); ok && dr.X == v && !dr.IsAddr {
+				if s, ok := dr.Expr.(interface{ String() string }); ok {
+					return s.String()
+				}
+			}
+		}
+	}
+	return ""
 }
 
 // nameValue registers v under base<k> (k = ordinal of that base name in encoding order).
